@@ -770,7 +770,7 @@ func main() {
 			sum.Hist("corpus")
 		}
 	}
-	total := o.Count(1500, 40000)
+	total := o.Count(1300, 40000)
 	for i := 0; i < total; i++ {
 		var c *caseJ
 		if r.Chance(0.75) {
